@@ -42,3 +42,54 @@ package expr
 //@   requires room: len(b) >= this.EncodedWidth()
 //@   modifies b[0:this.EncodedWidth()]
 //@   ensures remain: result0 == b[this.EncodedWidth():]
+
+// ---- aggregate (SUM, MIN, MAX, COUNT): state = 1 flag byte + 8 bytes float64; implementation of the Expr contract ----
+//@ func (*aggregate).load
+//@   requires len(b) >= 9
+//@   ensures flag: result1 == (b[0] == 1)
+//@   ensures val: (result1 ==> result0 == b2f(u64At(b, 1))) && (!result1 ==> result0 == 0)
+//@   ensures remain: result2 == b[9:]
+//@   nopanic
+
+//@ func (*aggregate).save
+//@   requires len(b) >= 9
+//@   modifies b[0:9]
+//@   ensures stored: b[0] == 1 && u64At(b, 1) == f2b(value)
+//@   ensures remain: result == b[9:]
+//@   nopanic
+
+// Merge: b := x (+) y. Unset sides are identities; when both are set the registered merge function combines the values.
+// Writes only b[0:9]; x and y are only read (C04/C05 "never modifies its operands").
+//@ func (*aggregate).Merge
+//@   requires e != nil && e.merge != nil && len(b) >= 9 && len(x) >= 9 && len(y) >= 9
+//@   modifies b[0:9]
+//@   ensures remain: result0 == b[9:] && result1 == x[9:] && result2 == y[9:]
+//@   ensures only_y: old(x[0]) != 1 && old(y[0]) == 1 ==> b[0] == 1 && u64At(b, 1) == f2b(b2f(old(u64At(y, 1))))
+//@   ensures neither: old(x[0]) != 1 && old(y[0]) != 1 ==> forall j in 0..9 :: b[j] == old(b[j])
+//@   ensures only_x: old(x[0]) == 1 && old(y[0]) != 1 ==> b[0] == 1 && u64At(b, 1) == f2b(b2f(old(u64At(x, 1))))
+//@   ensures both: old(x[0]) == 1 && old(y[0]) == 1 ==> b[0] == 1 && u64At(b, 1) == f2b(lastret(merge, 0)) && calls(merge) == old(calls(merge)) + 1 && lastarg(merge, 0) && lastarg(merge, 1) == b2f(old(u64At(x, 1))) && lastarg(merge, 2) == b2f(old(u64At(y, 1)))
+//@   callback merge modifies nothing
+//@   nopanic
+
+//@ func (*aggregate).Get
+//@   requires len(b) >= 9
+//@   ensures val: result1 == (b[0] == 1) && (result1 ==> result0 == b2f(u64At(b, 1))) && result2 == b[9:]
+//@   nopanic
+
+// The registered update/merge functions (expr/aggregates.go, in order of appearance).
+//@ func init#1$1
+//@   ensures sum_update: result == current + next
+//@ func init#1$2
+//@   ensures sum_merge: result == current + next
+//@ func init#1$3
+//@   ensures min_update: result == (!wasSet ? next : (next < current ? next : current))
+//@ func init#1$4
+//@   ensures min_merge: result == (!wasSet ? next : (next < current ? next : current))
+//@ func init#1$5
+//@   ensures max_update: result == (!wasSet ? next : (next > current ? next : current))
+//@ func init#1$6
+//@   ensures max_merge: result == (!wasSet ? next : (next > current ? next : current))
+//@ func init#1$7
+//@   ensures count_update: result == current + 1
+//@ func init#1$8
+//@   ensures count_merge: result == current + next
